@@ -42,6 +42,8 @@ static const unsigned short boundary[][3] = {
 template <class Fn> static void family (uint64_t seed, int episodes)
 {
     VtRng rng (seed);
+    // before any seeding: the hidden state starts at zero (as the C library's does)
+    { long v = Fn::l (); fprintf (o, "{\"e\":\"lrand48\",\"out\":%ld}\n", v); double w = Fn::d (); fprintf (o, "{\"e\":\"drand48\",\"out\":"); vt_d (o, w); fprintf (o, "}\n"); }
     for (int ep = 0; ep < episodes; ++ep)
     {
         // seeds: boundary-heavy 64-bit values (srand48 must use the low 32 bits only)
@@ -164,12 +166,21 @@ static void zero_draws ()
     static const int first[]  = {10, 2, 11, 6, 9, 2};          // gauss first
     static const int second[] = {2, 10, 11, 6, 9, 2};          // one draw, then gauss
     static const int sphere[] = {11, 10, 6, 9, 2, 2};          // gaussSphere first
-    int found = 0;
-    for (uint64_t sd = 0; sd < (1ull << 27) && found < 3; ++sd)
+    int found = 0, top = 0;
+    for (uint64_t sd = 0; sd < (1ull << 27) && (found < 3 || top < 4); ++sd)
     {
         Rand32 g ((unsigned long) sd);
         float  a = g.nextf ();
-        if (a != 0.0f) continue;
+        if (a == 1.0f - std::ldexp (1.0f, -23) && top < 4)
+        {   // the largest value below one: every mantissa bit of the draw is set
+            char id2[32];
+            snprintf (id2, sizeof id2, "t32_%d", top);
+            static const int draws[] = {2, 2, 5, 10, 6, 2};
+            Ops<Rand32, float>::run ("Rand32", id2, 0, sd, 1, 6, draws);
+            ++top;
+            continue;
+        }
+        if (a != 0.0f || found >= 3) continue;
         char id[32];
         snprintf (id, sizeof id, "z32_%d", found);
         Ops<Rand32, float>::run ("Rand32", id, 0, sd, 1, 6, found == 0 ? first : (found == 1 ? sphere : second));
